@@ -148,6 +148,19 @@ def highlights(out):
     return items
 
 
+def sibling_document(src):
+    """src with the first concrete line break and the following concrete letter swapped (None if there is no such place)"""
+    for i in range(40, len(src) - 40):
+        a, b = src[i], src[i + 1]
+        if isinstance(a, int) and isinstance(b, int) and a == 10 and (97 <= b <= 122 or 65 <= b <= 90):
+            return src[:i] + [b, a] + src[i + 2:]
+    for i in range(1, len(src) - 2):
+        a, b = src[i], src[i + 1]
+        if isinstance(a, int) and isinstance(b, int) and a == 10 and (97 <= b <= 122 or 65 <= b <= 90):
+            return src[:i] + [b, a] + src[i + 2:]
+    return None
+
+
 def list_template(ctx, p):
     ds, de = [60], [62]
     cfg = cfg_from(p)
@@ -171,6 +184,11 @@ def c15_list(ctx, p):
         ctx.cover('nested-region-dropped')
     if any(count_nl(src[s:e]) for s, e, _ in rr):
         ctx.cover('multi-line-region')
+    # a pure function of (source, configuration): listing a sibling document first (same length, same head and tail, a line
+    # break moved) must leave no trace in the listing of this one
+    sib = sibling_document(src)
+    if sib is not None:
+        ctx.impl.list(sib, ds, de, cfg, all=False, format='json')
     js = ctx.impl.list(src, ds, de, cfg, all=False, format='json')
     got = [(tuple(it['line_range']), it['current_status']) for it in js['items']]
     exp = [((1 + count_nl(src[:s]), 1 + count_nl(src[:e - 1])), 'Ready') for s, e, _ in rr]
@@ -285,6 +303,10 @@ LIST_TPL = {
     'tabs-and-columns': ["f() {\n", H(1, 'ind'), "\tab", H(1, 'ind'), O('m', RX), "\n\t\tq\n\t", H(1, 'ind'), C('m'), "c\n}\n"],
     'inline-two-on-a-line': ["a ", O('m', RX), "x", C('m'), H(1, 'sp'), "b ", O('t', RT), "y\nz", C('t'), " c ", O('m', PN), "w", C('m'), "\nB\n"],
     'skip-and-unregistered': ["A\n", O('m', SK), "\ns\n", C('m'), "\n", O('u'), "\nu\n", C('u'), "\n", H(1, 'ind'), O('m', PN + ' unwrap-block'), "\nonly-one-line\n", C('m'), "\n", O('m', RX), "\nr\n", C('m'), "\nB\n"],
+    'pending-nonunwrappable-with-pending-child': ["A\n", O('m', PN + ' unwrap-block'), "\n", H(1, 'ind'), O('t', PT), "only", C('t'), "\n", C('m'), "\nB\n", O('m', PN + ' unwrap-block'), O('t', PT), "k", C('t'), C('m'), "\n",
+                                                  O('t', RT), "\nr\n", C('t'), "\n"],
+    'pending-child-opens-on-ready-unwrap-tag-line': ["A\n", O('m', RX + ' unwrap-block'), H(1, 'sp'), O('t', PT), "\n{\n", H(1, 'ind'), "k\n", C('t'), "\n  j\n}\n", C('m'), "\nB\n"],
+    'ready-skip-element': ["A\n", O('m', SK), "\ns\n", C('m'), "\n", H(1, 'ind'), O('t', RT + ' skip'), "\nq\n", C('t'), "\n", O('m', RX), "\nr\n", C('m'), "\nB\n"],
     'starts-with-tag': [O('m', RX), "\nr", H(1, 'txt'), "\n", C('m'), "\nB\n", O('t', RT), "x", C('t'), O('m', RX), "y", C('m'), H(1, 'txt'), "\n"],
     'adjacent-inline': ["a", O('m', RX), "x", C('m'), O('t', RT), "y", C('t'), O('m', PN), "p", C('m'), H(1, 'txt'), O('t', RT), "z", C('t'), "\nB\n"],
     'leading-line-break-then-tag': ["\n", H(1, 'ind'), O('m', RX), "\nr\n", C('m'), "\nB", H(1, 'txt'), "\n"],
